@@ -40,6 +40,21 @@ Theorem C41_no_round_trip_gain : forall k dvs p cs p' m ts p'' owed,
   Forall2 Z.le owed ts.
 Proof. exact no_round_trip_gain_redeem. Qed.
 
+(* The same without any premise on the state: for every well-formed pool, contribute-then-redeem
+   either returns at most what was taken, or the pool had reserves but no units (the blueprint's
+   documented first-contributor case) — and then the minted units are the whole supply and the
+   redemption is still bounded by the reserves. An empty or all-zero contribution (which the
+   multi-resource pool accepts on a pool without units, see C41_empty_contribution_mints_one_unit)
+   is covered: valid_amount admits zero amounts. *)
+Theorem C41_round_trip_total : forall k dvs p cs p' m ts owed,
+  kind_ok k dvs -> wf_divs dvs -> wf_pool dvs p -> Forall2 valid_amount dvs cs ->
+  contribute k dvs p cs = POk (p', m, ts) ->
+  amounts_owed dvs m (supply p') (reserves p') = POk owed ->
+  Forall2 Z.le owed ts \/
+  (unowned_reserves p /\ supply p' = m /\
+   Forall2 (owed_bound m (supply p')) owed (combine dvs (reserves p'))).
+Proof. exact round_trip_total. Qed.
+
 (* the exception is real (and documented in the blueprint): manager deposits 5 into an empty
    one-resource pool, a user contributes 1 and can redeem 6 *)
 Theorem C41_unowned_reserves_go_to_first_contributor :
@@ -155,6 +170,7 @@ Qed.
 Print Assumptions C41_redeem_pro_rata.
 Print Assumptions C41_get_redemption_pro_rata.
 Print Assumptions C41_no_round_trip_gain.
+Print Assumptions C41_round_trip_total.
 Print Assumptions C41_unowned_reserves_go_to_first_contributor.
 Print Assumptions C41_reserves_nonneg.
 Print Assumptions C41_user_histories_have_no_unowned_reserves.
